@@ -1,7 +1,7 @@
 (* C10  EXT and out-of-band buffer opcodes appear only when explicitly enabled. *)
 From Coq Require Import List NArith Bool.
 From PF Require Import Opcodes RefTable Config Sim Ref Lex Envelope Oracles.
-From PF.proofs Require Import Refine Run PropsR Examples.
+From PF.proofs Require Import Refine Run PropsR LexRT PropsB Examples.
 
 (* no safety premise: holds for unsafe configurations too (TypeConfusion's replacement opcodes
    are ten fixed value pushers, none of them EXT or buffer opcodes) *)
@@ -10,6 +10,11 @@ Theorem C10_tokens : forall c framed steps, run_R c framed steps ->
     (is_ext t = true -> c_ext c = true) /\ (is_buffer t = true -> c_buf c = true).
 Proof. exact C10_R. Qed.
 Print Assumptions C10_tokens.
+
+Theorem C10_bytes : forall c framed steps, run_R c framed steps -> fits c framed steps ->
+  oracle_C10 c (serialize (run_tokens c framed steps)) = true.
+Proof. exact C10_B. Qed.
+Print Assumptions C10_bytes.
 
 Example C10_nonvacuous : run_R (ex_cfg V4 7) true ex_steps2 /\ c_ext (ex_cfg V4 7) = false.
 Proof. exact (conj ex_run2 eq_refl). Qed.
